@@ -5,14 +5,16 @@ pub type Q = (String, String, String, Option<String>);
 #[derive(Clone, Default, Debug, PartialEq, Eq)]
 pub struct Store { pub quads: BTreeSet<Q>, pub graphs: BTreeSet<String> }
 #[derive(Clone, Debug, Serialize, Deserialize, PartialEq, Eq)]
-pub enum T { Var(String), Iri(String), Lit(String), Bn(String) }
+pub enum T { Var(String), Iri(String), Lit(String), Bn(String),
+    /// an RDF-star quoted triple (templates only)
+    Quoted(Box<T>, Box<T>, Box<T>) }
 #[derive(Clone, Debug, Serialize, Deserialize, PartialEq, Eq)]
 pub enum G { Default, Named(String), Var(String) }
 #[derive(Clone, Debug, Serialize, Deserialize, PartialEq, Eq)]
 pub struct QP { pub s: T, pub p: T, pub o: T, pub g: G }
 pub type Binding = BTreeMap<String, String>;
 
-pub fn txt(t: &T) -> String { match t { T::Var(v) => format!("?{v}"), T::Iri(i) => format!("<{i}>"), T::Lit(l) => format!("\"{l}\""), T::Bn(b) => format!("_:{b}") } }
+pub fn txt(t: &T) -> String { match t { T::Var(v) => format!("?{v}"), T::Iri(i) => format!("<{i}>"), T::Lit(l) => format!("\"{l}\""), T::Bn(b) => format!("_:{b}"), T::Quoted(s, p, o) => format!("<< {} {} {} >>", txt(s), txt(p), txt(o)) } }
 /// render quad patterns as the body of a group / template (triples grouped by GRAPH)
 pub fn block(qs: &[QP]) -> String {
     let mut s = String::new();
@@ -22,7 +24,7 @@ pub fn block(qs: &[QP]) -> String {
     }
     s
 }
-fn lex(t: &T) -> String { match t { T::Iri(i) => i.clone(), T::Lit(l) => l.clone(), T::Bn(b) => format!("_:{b}"), T::Var(v) => format!("?{v}") } }
+fn lex(t: &T) -> String { match t { T::Iri(i) => i.clone(), T::Lit(l) => l.clone(), T::Bn(b) => format!("_:{b}"), T::Var(v) => format!("?{v}"), T::Quoted(s, p, o) => format!("<< {} {} {} >>", lex(s), lex(p), lex(o)) } }
 /// quad-pattern BGP: default patterns see the default graph, GRAPH <g> needs g in the catalog, GRAPH ?g ranges over the
 /// catalog (or the bound value); multiset of bindings (one per way of matching)
 pub fn matchq(m: &Store, pat: &[QP]) -> Vec<Binding> {
@@ -43,7 +45,7 @@ pub fn matchq(m: &Store, pat: &[QP]) -> Vec<Binding> {
                     for (t, val) in [(&qp.s, &q.0), (&qp.p, &q.1), (&qp.o, &q.2)] {
                         match t {
                             T::Var(v) => match b2.get(v) { Some(x) if x != val => { ok = false; break; } Some(_) => {} None => { b2.insert(v.clone(), val.clone()); } },
-                            T::Bn(_) => { ok = false; break; }
+                            T::Bn(_) | T::Quoted(..) => { ok = false; break; }
                             other => if &lex(other) != val { ok = false; break; },
                         }
                     }
@@ -71,15 +73,19 @@ pub fn inst_pre(tpl: &[QP], sols: &[Binding], insert: bool, ctr: &mut u64, pre: 
     for b in sols {
         let mut bn: BTreeMap<String, String> = BTreeMap::new();
         for q in tpl {
-            let mut term = |t: &T, ctr: &mut u64| -> Option<(String, bool)> {
+            // a blank-node label denotes one fresh node per solution, wherever it occurs in the template (also inside a quoted triple)
+            fn term_in(t: &T, b: &Binding, bn: &mut BTreeMap<String, String>, insert: bool, ctr: &mut u64) -> Option<(String, bool)> {
                 match t {
                     T::Var(v) => b.get(v).map(|x| (x.clone(), true)),
                     T::Bn(l) => { if !insert { return None; } Some((bn.entry(l.clone()).or_insert_with(|| { *ctr += 1; format!("_:B{}", *ctr) }).clone(), false)) }
+                    T::Quoted(s, p, o) => { let (s, _) = term_in(s, b, bn, insert, ctr)?; let (p, _) = term_in(p, b, bn, insert, ctr)?; let (o, _) = term_in(o, b, bn, insert, ctr)?; Some((format!("<< {} {} {} >>", s, p, o), false)) }
                     o => Some((lex(o), false)),
                 }
-            };
+            }
+            let mut term = |t: &T, ctr: &mut u64| -> Option<(String, bool)> { term_in(t, b, &mut bn, insert, ctr) };
             let Some((s, sv)) = term(&q.s, ctr) else { continue };
-            if sv && !(is_iri(&s) || is_bn(&s) || used_s(&s)) { continue; }
+            // a quoted triple (built from IRIs / blank nodes) bound to a variable is a legal RDF-star subject; it is no predicate or graph name
+            if sv && !(is_iri(&s) || is_bn(&s) || used_s(&s) || s.starts_with("<< ")) { continue; }
             let Some((p, pv)) = term(&q.p, ctr) else { continue };
             if pv && !(is_iri(&p) || (!is_bn(&p) && used_p(&p))) { continue; }
             let Some((o, _)) = term(&q.o, ctr) else { continue };
